@@ -121,6 +121,9 @@ func (s *Session) Consume(p Pack) {
 	defer buffers.Put(buf)
 	p2 := p.(*rtsp.RTPPack)
 	p2.Write(buf, s.transport.Channels[:])
+	if buf.Len() == 0 { // 未订阅的通道，没有帧可发送
+		return
+	}
 
 	var err error
 	s.lockW.Lock()
